@@ -25,7 +25,7 @@ ASSUMPTIONS = [
     "tolerance 1e-9 x signal scale for rotated samples (cos/sin of large angles lose a few ulps), bit equality only where the two executions perform identical operations",
 ]
 NOT_REACHED = ["azimuth sets outside [0,180] for HvsrAzimuthal (refused by design)"]
-BUDGET = {"quick": dict(cases=1400, seconds=60, shards=4),
+BUDGET = {"quick": dict(cases=3500, seconds=60, shards=4),
           "thorough": dict(cases=200000, seconds=600, shards=16)}
 REQUIRED = ["mon:rotation-matches-ground-truth", "mon:energy-preserved", "mon:vertical-untouched",
             "mon:orientation-recorded", "mon:composition-and-inverse", "mon:single-azimuth-equals-oriented-north",
